@@ -19,21 +19,25 @@
 //        the depot's per-type and total limits hold for the new table.
 //   C06  the `.expect("There should be at least the overflow depot available.")` cannot panic iff SOME start depot node of the
 //        network can spawn the type w.r.t. the given table (some_depot_has_room; weakest precondition: with no such node `find`
-//        returns None) -- e.g. the overflow depot has room left.  find_best_end_depot_for_despawning is Ok iff the network has
-//        an end depot node (no panic: the error is returned).
+//        returns None) -- e.g. (lemma_depot_without_type_limit_suffices) a start depot node whose depot lists the type without
+//        per-type limit, as the overflow depot does, and where fewer vehicles start in total than its total capacity.
+//        find_best_end_depot_for_despawning is Ok iff the network has an end depot node (no panic: the error is returned).
 //   C13  "If path does not end with a depot ... Similarly": find_best_end_depot_for_despawning returns the nearest member of
 //        network.end_depot_nodes (dead-head distance from the end location of last_node to the depot; ties: the one listed first).
 //        CAPACITIES ARE IGNORED -- this is what the code documents ("Capacties of depots are ignored",
 //        reassign_end_depots_greedily) and what C02 asks for (it limits the vehicles STARTING at a depot only).
-//        The sorted lists are rearrangements (same multiset) of start_depot_nodes / end_depot_nodes in ascending order of the key,
-//        equal keys in list order.
+//        The sorted lists are rearrangements (same multiset) of start_depot_nodes / end_depot_nodes in ascending order of the key
+//        (Network::sorted_to / sorted_from), equally distant nodes in list order (Network::ties_to / ties_from, opaque).
+//        Distances: Network::dist_to(d, loc) = dead-head distance from the START location of node d to loc, dist_from(loc, d) =
+//        from loc to the START location of node d (what the code reads; for a depot node start and end location coincide).
 //   C09  reduces_spawning_at_depot_violation == (depot balance < 0), reduces_despawning_at_depot_violation == (balance > 0), with
 //        the balance of slices/depot_usage.vs (spawned minus despawned of the schedule's own table).
 //
 // ASSUMPTIONS introduced / used by this slice:
 //   A-std9   NEW (env/depot_choice_shim.vs): <[T]>::sort_by_key -- std: stable sort by the key; stated for a key function whose
 //            contract fixes ONE key per element: result has the same multiset, is sorted w.r.t. Ord::cmp of the keys, elements
-//            with equal keys keep their relative order (position maps p / q, stable_by)
+//            with equal keys keep their relative order (sorted_stable_by: ks = the keys, p = the positions in the input; the
+//            order clauses only for key types whose OrdSpecImpl says obeys_cmp_spec)
 //   A-iter   NEW (env/depot_choice_shim.vs): SeqIter::find (first item the predicate accepts, all items before it refused; None iff
 //            all refused; `self` by value), SeqIter::rev / SeqIter::last (NOT used by the unchanged source: they keep edits that
 //            search from the far end decidable; text as in env/objective_eval_shim.vs / env/fit_reassign_shim.vs);
@@ -73,7 +77,10 @@
 //   * C02 "Only the artificial overflow depot is exempt": the code does not exempt it, it gives it a large capacity; nothing is
 //     claimed about that here;
 //   * the callers' stubs of these functions (slices/spawn_vehicle.vs, slices/depot_ops.vs) carry weaker contracts WITHOUT
-//     preconditions; their clauses are repeated verbatim in the contracts below so that the stub texts can be replaced;
+//     preconditions (tools/stub_sync.py reports them as differing).  The clauses of the stubs of the two find_best_* functions
+//     are repeated verbatim in the contracts below; the clauses of depot_ops' stub of end_depots_sorted_by_distance_from (same
+//     length, same members) follow from the multiset equality by lemma_perm_members.  The callers do not establish the new
+//     preconditions yet (start_depots_ok, usage_counts_small, some_depot_has_room, Network::wf, has(first / last node));
 //   * end depots: nothing about capacities or balances (none is consulted); the text of the error message.
 #![feature(allocator_api)]
 use vstd::prelude::*;
@@ -340,6 +347,38 @@ use crate::im_set::HashSet;
         // more vehicles of the type start at the depot than end there
         r == (sp_balance(self.depot_usage@, depot, vehicle_type) > 0), // @obl C09.reduces_despawning_violation.iff_positive_balance
 //@end
+
+// =====================================================================================================
+// C06: when is the precondition of find_best_start_depot_for_spawning met -- "at least the overflow depot"
+// =====================================================================================================
+/// A start depot node n of the network whose depot lists the type WITHOUT a per-type limit (the overflow depot lists every type
+/// of the network so: slices/network_new.vs, C17.overflow_depot.no_per_type_limit_for_any_type) can spawn a vehicle of the type
+/// as long as fewer vehicles start there in total than its total capacity -- then `expect` cannot panic.
+pub proof fn lemma_depot_without_type_limit_suffices(s: &Schedule, n: NodeIdx, vehicle_type: VehicleTypeIdx, du: UsageMap)
+    requires
+        s.network.start_depot_nodes@.contains(n),
+        // the type is one of the network's types (the total is the sum over them)
+        s.network.vehicle_types.ids_sorted@.contains(vehicle_type),
+        ({
+            let d = s.network.sp_depot_idx_of(n);
+            let dep = s.network.sp_depot(d);
+            &&& dep.allowed_types@.contains_key(vehicle_type) && dep.allowed_types@[vehicle_type] is None
+            &&& spawned_total(du, d, s.network.vehicle_types.ids_sorted@) < dep.total_capacity
+        }),
+    ensures
+        s.sp_can_spawn(n, vehicle_type, du),
+        s.some_depot_has_room(vehicle_type, du), // @obl C06.find_best_start_depot.a_depot_without_type_limit_and_room_in_total_suffices
+{
+    let d = s.network.sp_depot_idx_of(n);
+    let types = s.network.vehicle_types.ids_sorted@;
+    let c = spawned_counts(du, d, types);
+    let k = choose|k: int| 0 <= k < types.len() && types[k] == vehicle_type;
+    lemma_isum_nonneg_le(c, k);
+    assert(c[k] == spawned_of_type(du, d, vehicle_type));
+    let sdn = s.network.start_depot_nodes@;
+    let i = choose|i: int| 0 <= i < sdn.len() && sdn[i] == n;
+    assert(s.sp_can_spawn(sdn[i], vehicle_type, du));
+}
 
 // =====================================================================================================
 // C02: the depot limits still hold after the vehicle was booked at the chosen depot
